@@ -96,6 +96,11 @@ def expr_to_lean(n: ast.AST, env: Dict[str, str]) -> str:
         if type(n.op) in _BINOPS:
             return f'({expr_to_lean(n.left, env)} {_BINOPS[type(n.op)]} {expr_to_lean(n.right, env)})'
         raise Untranslatable(f'operator {type(n.op).__name__}')
+    if isinstance(n, ast.Compare) and len(n.ops) == 1 and isinstance(n.ops[0], (ast.In, ast.NotIn)) and \
+            isinstance(n.comparators[0], (ast.Set, ast.Tuple, ast.List)):
+        lhs = expr_to_lean(n.left, env)
+        alts = ' ∨ '.join(f'({lhs} = {expr_to_lean(e, env)})' for e in n.comparators[0].elts)
+        return f'({alts})' if isinstance(n.ops[0], ast.In) else f'(¬ ({alts}))'
     if isinstance(n, ast.Compare) and len(n.ops) == 1 and type(n.ops[0]) in _CMPOPS:
         return f'({expr_to_lean(n.left, env)} {_CMPOPS[type(n.ops[0])]} {expr_to_lean(n.comparators[0], env)})'
     if isinstance(n, ast.Compare) and len(n.ops) == 2 and all(type(o) in _CMPOPS for o in n.ops):
